@@ -26,6 +26,7 @@
 #include <mutex>
 #include <set>
 #include <thread>
+#include <time.h>
 #include <unistd.h>
 
 namespace
@@ -809,6 +810,13 @@ rc::Gen<GProg> gen_prog(const std::vector<int>& kinds, int max_ops)
 // ---------------------------------------------------------------------------------------------
 // statistics (same file format as the sequential engine so the driver is shared)
 // ---------------------------------------------------------------------------------------------
+double mono_now_s()
+{
+    // the real monotonic clock (std::chrono::steady_clock is the harness-owned virtual clock)
+    timespec ts;
+    clock_gettime(CLOCK_MONOTONIC, &ts);
+    return static_cast<double>(ts.tv_sec) + static_cast<double>(ts.tv_nsec) * 1e-9;
+}
 unsigned long long fnv(const std::string& s)
 {
     unsigned long long h = 1469598103934665603ull;
@@ -955,8 +963,12 @@ int main(int argc, char** argv)
     const auto                   gen      = gen_prog(kinds, max_ops);
     const std::string            failpath = g_outdir + "/fail-w" + std::to_string(g_worker) + ".case";
 
+    long   shrink_evals = 0;
+    double fail_t0      = 0;
     bool ok = rc::check(property + " sched " + profile, [&]() {
         const GProg g = *gen;
+        if (failed && (++shrink_evals > 1500 || mono_now_s() - fail_t0 > 40.0))
+            return; // shrinking budget used up
         Program     p = build_program(g);
         std::string text = to_text(p);
         g_current_len    = std::min(text.size(), sizeof g_current);
@@ -988,6 +1000,8 @@ int main(int argc, char** argv)
         }
         if (R.verdict == 1 && (!failed || R.pred == fail_pred))
         {
+            if (!failed)
+                fail_t0 = mono_now_s();
             failed    = true;
             fail_pred = R.pred;
             fail_msg  = R.msg;
